@@ -147,9 +147,23 @@ def r2_replace_all(ctx):
                  "no destructive step in this body", work=len(body.blocks))
             continue
         restorers = [i for i, t in idioms.real_calls(body, live) if cfg.call_matches(t, RESTORERS)]
+        # the verification outcome: a bool defined by comparing the new head
+        # with the checkpoint; paths are examined under `verified == false`
+        infeasible = set()
+        for i, t in idioms.real_calls(body, live):
+            if cname(t) in ("eq", "ne") and "CommitProof" in ((t.get("callee_full") or "") + (t.get("resolved_full") or "")) and "." not in t["dest"]:
+                # verification failed: eq -> false, ne -> true
+                infeasible |= cfg.infeasible_edges(body, int(t["dest"]), cname(t) == "ne")
+        # a `clear` that is not followed by re-applying records puts an
+        # initially empty log (no snapshot) back into its previous state
+        applies = [i for i, t in idioms.real_calls(body, live) if cname(t) in ("patch_unchecked", "apply_records", "apply", "insert_records")]
+        for (di, dt, dn) in list(destructive):
+            if dn in DESTRUCTIVE and not any(a in cfg.reach_after(body, di, cut_edges=infeasible) for a in applies):
+                restorers.append(di)
+                destructive.remove((di, dt, dn))
         for (di, dt, dn) in destructive:
             start, _at = idioms.success_start(body, di)
-            bad = cfg.find_path(body, start, verr, cut_blocks=restorers)
+            bad = cfg.find_path(body, start, verr, cut_blocks=restorers, cut_edges=infeasible)
             k2 = "%s|destroy:%s" % (key, dn)
             if bad:
                 r.violation(k2, cfg.loc(body, di),
